@@ -27,6 +27,11 @@ SHAPES = ('one-one', 'many-one', 'one-many', 'paired')
 DTYPES = ('uint8', 'int16', 'int64', 'uint32')
 
 
+# operations of one round in the order the library applies them (the reference stops after operation number `step`)
+ENC_STEP_NAMES = ['SUB_BYTES', 'SHIFT_ROWS', 'MIX_COLUMNS', 'ADD_ROUND_KEY']
+DEC_STEP_NAMES = ['INV_ADD_ROUND_KEY', 'INV_MIX_COLUMNS', 'INV_SHIFT_ROWS', 'INV_SUB_BYTES']
+
+
 def _ref_many(keys, blocks, mode, rnd, step):
     return np.array([R.state_at(bytes(k), bytes(b), mode, rnd, step) for k, b in zip(keys, blocks)], dtype='uint8')
 
@@ -52,7 +57,8 @@ def check_stop(ctx, case):
         kw['at_round'] = rnd
     if step is not None:
         # plain int or the documented enumeration member
-        kw['after_step'] = (aes.Steps if mode == 'encrypt' else aes.InverseSteps)(step) if case.get('step_enum') else step
+        # as a member of the documented enumeration the step is selected BY NAME: the name of the operation the reference stops after
+        kw['after_step'] = getattr(aes.Steps if mode == 'encrypt' else aes.InverseSteps, (ENC_STEP_NAMES if mode == 'encrypt' else DEC_STEP_NAMES)[step]) if case.get('step_enum') else step
     if case.get('prime'):
         # the same array OBJECTS are used for an earlier call with other contents, then overwritten in place
         # (an identity-keyed cache or a retained reference must not leak into the second call)
